@@ -1,6 +1,7 @@
 """C14 — journal-backed zones: write-ahead order; journal error => no mutation; post-update SOA row; replay with
 auto-increment off; all rows of one UPDATE in one transaction; prescan/apply agreement."""
 import re
+import core
 from api import shorten
 
 EXPLANATION = (
@@ -148,3 +149,37 @@ def run(cx):
                 writers_.add(g.path)
     allowed = {J + 'insert_record', J + 'insert_records', J + 'schema_up', J + 'init_up', J + 'records_up', J + 'update_schema_version', J + 'schema_down'}
     cx.check('C14.W1', writers_ <= allowed and J + 'insert_record' in writers_, J, 'writers', 'sql-writers', ', '.join(sorted(writers_ - allowed)) or f'{len(writers_)} as reviewed')
+
+    # ---------------------------------------------------------------- W2 who mutates the zone map
+    # recovery re-executes update_records over the journal rows; it reproduces the live zone only if nothing else changes the
+    # set of RRsets that update_records sees (an "empty RRset clean-up" on the signing path makes live and replayed state diverge)
+    ZMUT = re.compile(r"BTreeMap.*::(insert|remove|retain|clear|entry|get_mut|append|values_mut|iter_mut|extend|pop_first|pop_last|split_off|remove_entry|extract_if)$")
+    ZONE_MAP_WRITERS = {
+        'InMemoryZoneHandler::clear': {'clear'},                     # explicit API, not on the update path
+        'InnerInMemory::increment_soa_serial': {'remove'},           # SOA taken out and re-inserted through upsert
+        'InnerInMemory::nsec_zone': {'retain'},                      # drops and regenerates NSEC records (derived data)
+        'InnerInMemory::nsec3_zone': {'retain'},                     # same for NSEC3 / NSEC3PARAM
+        'InnerInMemory::sign_zone': {'values_mut'},                  # attaches RRSIGs to existing RRsets
+        'InnerInMemory::upsert': {'entry'},                          # the one insertion point
+        'SqliteZoneHandler::update_records::{closure#0}': {'retain', 'remove', 'get_mut'},   # RFC 2136 3.4.2 delete forms
+    }
+    seen = {}
+    for p_, g in sorted(prog.fns.items()):
+        if 'hickory_server::store' not in p_ or '::tests::' in p_:
+            continue
+        for bi, c, t in prog.calls_of(g):
+            if 'op' in c:
+                continue
+            m = ZMUT.search(core.strip_generics(c.get("res") or c["def"]))
+            if not m:
+                continue
+            tt = shorten(g.term_call(t, 0))
+            if 'records' not in tt:
+                continue
+            key = shorten(p_ + '(')[:-1]
+            seen.setdefault(key, set()).add(m.group(1))
+            ok = m.group(1) in ZONE_MAP_WRITERS.get(key, ())
+            cx.check('C14.W2', ok, p_, f'call:BTreeMap::{m.group(1)}', 'zone-map-mutated-only-at-reviewed-sites',
+                     'the map of RRsets is changed outside the reviewed writers: journal replay does not re-execute this, so the recovered zone can differ from the live one', g.loc(bi),
+                     sample={'fn': key, 'op': m.group(1), 'holds': ok})
+    cx.floor('C14.W2', len(seen), 6, 'functions that mutate the zone map')
